@@ -116,6 +116,9 @@ pub fn c14(args: &Args, reg: &[TypeEntry], log: &mut Log) {
                 Err(err) => problems.push(json!({"role": "container-as", "kind": "unparseable-type", "detail": format!("{fi}: {err}")})),
             }
         }
+        if let (Some((a, _)), Some((b, _))) = (bodies.get("flat"), bodies.get("flat-boxed")) {
+            checks.insert("flat~flat-boxed".into(), equiv(&env, a, b));
+        }
         if let (Some((a, _)), Some((b, _))) = (bodies.get("flat-of-inline"), bodies.get("flat-of-name")) {
             checks.insert("flat-of-inline~flat-of-name".into(), equiv(&env, a, b));
         }
